@@ -728,8 +728,42 @@ def check_name(ctx, case):
         ctx.nt(('name', name))
 
 
+def check_target_range(ctx, case):
+    """a configuration which narrows the value range of a Writable below its target range is refused - for every module of the
+    class, in whatever order the modules are created (the check belongs to the module, not to its class)"""
+    from frappy.core import Writable, Parameter, FloatRange
+
+    class W(Writable):
+        value = Parameter(datatype=FloatRange(0, 10))
+        target = Parameter(datatype=FloatRange(0, 10))
+
+        def write_target(self, value):
+            return value
+    order = case.get('order') or ['good', 'bad']
+    if sorted(order) != ['bad', 'good'] and sorted(order) != ['bad', 'good', 'good']:
+        return
+    ctx.ev()
+    cfg = {}
+    for i, kind in enumerate(order):
+        cfg[f'w{i}'] = {'cls': W, 'description': kind}
+        if kind == 'bad':
+            cfg[f'w{i}']['value'] = {'max': 5}
+    kit = Kit(cfg)
+    bad = [f'w{i}' for i, kind in enumerate(order) if kind == 'bad']
+    good = [f'w{i}' for i, kind in enumerate(order) if kind == 'good']
+    if any(b in kit.modules for b in bad) or not any(b in ' '.join(kit.errors) for b in bad):
+        ctx.finding('bad-config-accepted:target-range-beyond-value-range', case, f'order {order!r}: modules {sorted(kit.modules)!r}, errors {kit.errors!r}'[:300])
+    elif any(g not in kit.modules for g in good):
+        ctx.finding('valid-config-rejected:target-range', case, repr(kit.errors)[:300])
+    else:
+        ctx.ok('target-range-checked-per-module')
+    ctx.nt(('target-range', tuple(order)))
+
+
 def run_shard(ctx, shard):
     if shard['idx'] == 'names':
+        for order in (['good', 'bad'], ['bad', 'good'], ['good', 'good', 'bad'], ['good', 'bad', 'good']):
+            check_target_range(ctx, {'kind': 'target-range', 'order': order})
         for name in NAME_FIXED:
             check_name(ctx, {'kind': 'name', 'name': name})
         drive(st.builds(lambda n: {'kind': 'name', 'name': n}, st.text('aZ_9 \n\t-.:ä\r', max_size=8)), lambda case: check_name(ctx, case),
@@ -746,6 +780,8 @@ def run_case(ctx, case):
         check_files(ctx, case)
     elif case['kind'] == 'name':
         check_name(ctx, case)
+    elif case['kind'] == 'target-range':
+        check_target_range(ctx, case)
     else:
         if case.get('cfg', {}).get('description') == '':
             return      # (shrinker artefact: an empty description is left out of the description of the node)
